@@ -123,7 +123,7 @@ def go_build_repo_cmd(repo_pkg, out_name, timeout=1200):
 
 # --------------------------------------------------------------------------- Coq
 def coq_prepare(prop):
-    rc, o = sh([os.path.join(ROOT, "scripts", "coqproject.sh"), prop], timeout=120)
+    rc, o = sh([os.path.join(ROOT, "scripts", "coqproject.sh"), prop], timeout=1200)
     if rc != 0:
         raise CheckError("coqproject.sh failed:\n" + o)
 
